@@ -114,6 +114,94 @@ def units(ctx):
     return out
 
 
+class _Giveup(Exception):
+    pass
+
+
+def _ev(e, env):
+    """evaluate a timeout expression over concrete representatives (None and numbers): names, constants, is/is not/comparisons, and/or/not, min/max"""
+    if isinstance(e, ast.Constant):
+        return e.value
+    if isinstance(e, ast.Name):
+        if e.id in env:
+            return env[e.id]
+        raise _Giveup()
+    if isinstance(e, ast.UnaryOp) and isinstance(e.op, ast.Not):
+        return not _ev(e.operand, env)
+    if isinstance(e, ast.BoolOp):
+        res = None
+        for v in e.values:
+            res = _ev(v, env)
+            if isinstance(e.op, ast.And) and not res:
+                return res
+            if isinstance(e.op, ast.Or) and res:
+                return res
+        return res
+    if isinstance(e, ast.Compare):
+        left = _ev(e.left, env)
+        for op, c in zip(e.ops, e.comparators):
+            right = _ev(c, env)
+            if isinstance(op, ast.Is):
+                r = left is right
+            elif isinstance(op, ast.IsNot):
+                r = left is not right
+            elif isinstance(op, ast.Eq):
+                r = left == right
+            elif isinstance(op, ast.NotEq):
+                r = left != right
+            else:
+                if left is None or right is None:
+                    raise _Giveup()          # the concrete program would raise TypeError here
+                r = {ast.Lt: left < right, ast.LtE: left <= right, ast.Gt: left > right, ast.GtE: left >= right}.get(type(op))
+                if r is None:
+                    raise _Giveup()
+            if not r:
+                return False
+            left = right
+        return True
+    if isinstance(e, ast.Call) and isinstance(e.func, ast.Name) and e.func.id in ('min', 'max') and not e.keywords:
+        vals = [_ev(a, env) for a in e.args]
+        if any(v is None for v in vals):
+            raise _Giveup()
+        return min(vals) if e.func.id == 'min' else max(vals)
+    if isinstance(e, ast.IfExp):
+        return _ev(e.body, env) if _ev(e.test, env) else _ev(e.orelse, env)
+    raise _Giveup()
+
+
+def _run_prefix(stmts, env):
+    """abstract run of the leading timeout-normalisation statements of a method (assignments to the two parameters, ifs, raises)"""
+    for st in stmts:
+        if isinstance(st, ast.Expr) and isinstance(st.value, ast.Constant):
+            continue
+        if isinstance(st, ast.If):
+            if not ({n.id for n in ast.walk(st.test) if isinstance(n, ast.Name)} <= set(env)):
+                return
+            _run_prefix(st.body if _ev(st.test, env) else st.orelse, env)
+        elif isinstance(st, ast.Assign) and len(st.targets) == 1 and isinstance(st.targets[0], ast.Name) and st.targets[0].id in env:
+            env[st.targets[0].id] = _ev(st.value, env)
+        elif isinstance(st, ast.Raise):
+            raise _Giveup()
+        else:
+            return
+
+
+def clamp_ok(f):
+    """the request budget sent to the server is capped by the local timeout and is not lost: evaluated over representatives of {None, small, large}^2.
+    Specification: timeout None -> remote_timeout unchanged; otherwise remote_timeout becomes timeout if it was None, else min(remote_timeout, timeout)."""
+    for t in (None, 0.5, 2.0):
+        for r in (None, 0.5, 2.0, 1.0):
+            env = {'timeout': t, 'remote_timeout': r}
+            try:
+                _run_prefix(f.node.body, env)
+            except _Giveup:
+                return False
+            want = r if t is None else (t if r is None else min(r, t))
+            if env['remote_timeout'] != want:
+                return False
+    return True
+
+
 def check_ident_reads(ctx):
     """R6 who-may-read frame on the recorded interpreter thread ident"""
     n = 0
@@ -233,7 +321,7 @@ def run(ctx):
                     ctx.check('R1', f'{F}: {nm}() is bounded', ok, F, f'unbounded-{nm}', f'`{norm(c)}` in {F} has no timeout', where=loc(f, c))
             # remote_timeout = min(remote_timeout, timeout)
             if 'remote_timeout' in tparams:
-                ok = any(isinstance(st, ast.Assign) and is_name(st.targets[0], 'remote_timeout') and 'min(remote_timeout, timeout)' in norm(st.value) for st in walk_local(f.node))
+                ok = clamp_ok(f)
                 ctx.check('R1', f'{f.short}: remote_timeout is capped by timeout', ok, f.short, 'remote-timeout-not-capped',
                           'the timeout sent to the server is not capped by the local timeout', where=loc(f, f.node))
         # the time granted by the caller arrives on the server as `timeout`; `remote_timeout` is the parent's budget for the request itself and means nothing there
